@@ -45,6 +45,17 @@ LinInterp(xl, xr, vl, vr, P) == RAdd(R(vl), RMul(R(vr - vl), RDiv(R(P - xl), R(x
 InterpCell(M, k, P) == [v \in 1..M.nv |-> LinInterp(M.xn[k + 1], M.xn[k + 2], M.vars[k + 1][v], M.vars[k + 2][v], P)]
 Interp1(M, P) == InterpCell(M, Cell(M.xn, P), P)
 
+\* The same at a point given RELATIVE to node k: x = x_k + s / 2^r (in grid units; s < 0: the cell to the left of the
+\* node, s > 0: to the right, |s| / 2^r less than that cell's width).  Only the cell's own numbers are scaled, so a
+\* grid with very wide cells elsewhere stays inside TLC's integers (requires width * 2^r < 2^28 for THIS cell).
+OffCell(M, k, s) == IF (s >= 0 /\ k < N1(M) - 1) \/ k = 0 THEN k ELSE k - 1
+OffCellOK(M, k, s, r) == LET c == OffCell(M, k, s) IN (M.xn[c + 2] - M.xn[c + 1]) * (2 ^ r) < 268435456
+InterpOff(M, k, s, r) ==
+  LET c == OffCell(M, k, s)
+      dx == M.xn[c + 2] - M.xn[c + 1]
+      off == RAdd(R(M.xn[k + 1] - M.xn[c + 1]), Norm(s, 2 ^ r))          \* x - x_l
+  IN [v \in 1..M.nv |-> RAdd(R(M.vars[c + 1][v]), RMul(R(M.vars[c + 2][v] - M.vars[c + 1][v]), RDiv(off, R(dx))))]
+
 (* ---------------- trapezium rule: sum of the cell contributions dx * (v_l + v_r) / 2, doubled ---------------- *)
 Trap1x2(M, var) ==
   LET RECURSIVE Go(_)
